@@ -113,8 +113,13 @@ def run(ctx):
         cu = ctx.prog.functions.get("hypergraphx.communities.hypergraph_mt.model.calculate_u_HySC")
         if cu is None:
             raise AnalysisError("calculate_u_HySC not found")
-        cs = [n for n in ast.walk(cu.node) if isinstance(n, ast.Call) and norm(n.func) == "HySC"]
-        res.check(bool(cs) and all(any(k.arg == "seed" and norm(k.value) == "seed" for k in c.keywords) for c in cs), "R-SEEDED", cu.short, norm(cs[0]) if cs else "HySC(seed=seed)", "hysc-ctor", "HySC is constructed without the seed", loc(cu, cu.node))
+        # (the class may come in through a seam parameter that defaults to it: `_factory=HySC` ... `_factory(seed=seed)`)
+        seam = {p_ for p_, d_ in cu.defaults().items() if norm(d_) == "HySC"}
+        cs = [n for n in ast.walk(cu.node) if isinstance(n, ast.Call) and (norm(n.func) == "HySC" or (isinstance(n.func, ast.Name) and n.func.id in seam))]
+        if not cs:
+            res.unknown("R-SEEDED", cu.short, "HySC(seed=seed)", "hysc-ctor", "the construction of the spectral model was not recognised", loc(cu, cu.node))
+        else:
+          res.check(all(any(k.arg == "seed" and norm(k.value) == "seed" for k in c.keywords) for c in cs), "R-SEEDED", cu.short, norm(cs[0]), "hysc-ctor", "HySC is constructed without the seed", loc(cu, cu.node))
     # ---- HySC: KMeans(random_state=seed), fit passes self.seed
     with res.guard("HySC: KMeans(random_state=seed), fit passes self.seed"):
         ak = ctx.view("HySC.apply_kmeans")
@@ -337,6 +342,10 @@ def run(ctx):
         check_lagrange(ctx, res)
     with res.guard("I-DENSESIZES"):
         check_dense_sizes(ctx, res)
+    with res.guard("M-SHAPE (shared with C09): N and the isolated nodes are read off the incidence matrix"):
+        from .c09 import check_incidence_shape
+
+        check_incidence_shape(ctx, res)
     res.assumptions += ["scipy.sparse.csr_array is introspected on a 1x1 instance of the installed library (trusted base)", "sklearn KMeans with a fixed random_state is deterministic (library)"]
     with res.guard("general lint pack over the property's files"):
         from ..lints import check_pack
